@@ -62,9 +62,50 @@ def eval_pred(e, ch, var):
     raise _Unknown(norm(e))
 
 
+def _as_guards(f):
+    """view of a predicate in which `return A and B` reads `if not A: return False` / `return B` (and `return A or B` reads
+    `if A: return True` / `return B`): one shape for a validity test written as guards or as one boolean expression"""
+    from ..core import FuncInfo, copy_tree
+    node = copy_tree(f.node)
+
+    def split(st):
+        v = st.value
+        if isinstance(v, ast.BoolOp) and len(v.values) >= 2:
+            first, rest = v.values[0], v.values[1:]
+            tail = ast.copy_location(ast.Return(value=rest[0] if len(rest) == 1 else ast.copy_location(ast.BoolOp(op=v.op, values=rest), v)), st)
+            if isinstance(v.op, ast.And):
+                g = ast.If(test=ast.UnaryOp(op=ast.Not(), operand=first), body=[ast.Return(value=ast.Constant(value=False))], orelse=[])
+            else:
+                g = ast.If(test=first, body=[ast.Return(value=ast.Constant(value=True))], orelse=[])
+            ast.copy_location(g, st)
+            ast.fix_missing_locations(g)
+            return [g] + split(tail)
+        return [st]
+
+    def block(stmts):
+        out = []
+        for st in stmts:
+            for fld in ("body", "orelse"):
+                sub = getattr(st, fld, None)
+                if isinstance(sub, list) and sub and isinstance(sub[0], ast.stmt) and not isinstance(st, ast.FunctionDef):
+                    setattr(st, fld, block(sub))
+            if isinstance(st, ast.Return) and st.value is not None:
+                out.extend(split(st))
+            else:
+                out.append(st)
+        return out
+    node.body = block(node.body)
+    for parent in ast.walk(node):
+        for child in ast.iter_child_nodes(parent):
+            child._parent = parent
+    node._parent = getattr(f.node, "_parent", None)
+    return FuncInfo(f.name, f.qualname, f.module, f.cls, node, f.role, f.prop)
+
+
 def writer_classes(f_good):
     """(first-char accept set, body accept set) of the writer's validity predicate over DOMAIN.
     recognised shape: guards of the form `if <pred over identifier[0] or identifier[i]>: return False`"""
+    f_good = _as_guards(f_good)
     first_rej, body_rej = [], []
     for n in walk_local(f_good.node):
         if isinstance(n, ast.If) and any(isinstance(s, ast.Return) and isinstance(s.value, ast.Constant) and s.value.value is False for s in n.body):
@@ -106,13 +147,23 @@ def reader_classes(f_check):
     """(first-char accept set without &, body accept set) of the reader's identifier check"""
     pats = [c.args[0].value for c in walk_local(f_check.node) if isinstance(c, ast.Call) and norm(c.func) in ("re.match", "re.fullmatch")
             and c.args and isinstance(c.args[0], ast.Constant)]
+    # the same through a compiled pattern: re.compile(<constant>).match(identifier), or a module-level name bound to one
+    for c in walk_local(f_check.node):
+        if isinstance(c, ast.Call) and isinstance(c.func, ast.Attribute) and c.func.attr in ("match", "fullmatch"):
+            rc = c.func.value
+            if isinstance(rc, ast.Name) and rc.id in f_check.module.assigns:
+                rc = f_check.module.assigns[rc.id]
+            if isinstance(rc, ast.Call) and norm(rc.func) == "re.compile" and rc.args and isinstance(rc.args[0], ast.Constant):
+                pats.append(rc.args[0].value)
     plain = [p for p in pats if "&" not in p]
     amp = [p for p in pats if "&" in p]
     if not plain or not amp:
         raise AnalysisError("I1: cannot find the reader's identifier regular expressions")
-    body = {c for c in DOMAIN if re.match(plain[0], c)}
+    # per position: what the pattern lets through as the first character, and as a later one behind a first character it accepts
+    first = {c for c in DOMAIN if re.match(plain[0], c)}
+    lead = sorted(first)[0] if first else None
+    body = {c for c in DOMAIN if lead is not None and re.match(plain[0], lead + c)}
     body_amp = {c for c in DOMAIN if re.match(amp[0], "&" + c)}
-    first = set(body)
     for n in walk_local(f_check.node):
         if isinstance(n, ast.If) and "identifier[0]" in norm(n.test) and any(isinstance(s, ast.Return) and isinstance(s.value, ast.Constant) and s.value.value is False for s in n.body):
             t = n.test
@@ -210,6 +261,17 @@ def check_c17(ctx, R):
                     pguard, prefix = ast.UnaryOp(op=ast.Not(), operand=n.test), [n.orelse.value]
                 else:
                     pguard, prefix = n.test, [n.body.value]
+    if pguard is None:
+        # the same choice as statements (how the loader reads the conditional expression): if c: prefix = "" else: prefix = "&"
+        for n in walk_local(fix.node):
+            if isinstance(n, ast.If) and len(n.body) == 1 and len(n.orelse) == 1 and all(
+                    isinstance(b, ast.Assign) and isinstance(b.targets[0], ast.Name) and isinstance(b.value, ast.Constant) and isinstance(b.value.value, str)
+                    for b in (n.body[0], n.orelse[0])) and n.body[0].targets[0].id == n.orelse[0].targets[0].id \
+                    and (n.body[0].value.value == "") != (n.orelse[0].value.value == ""):
+                if n.body[0].value.value == "":
+                    pguard, prefix = ast.UnaryOp(op=ast.Not(), operand=n.test), [n.orelse[0].value.value]
+                else:
+                    pguard, prefix = n.test, [n.body[0].value.value]
     if pguard is None:
         raise AnalysisError("I1: cannot find the guard of the prefix in _characters_fix")
     try:
@@ -323,8 +385,25 @@ def check_c17(ctx, R):
                        for a in walk_local(cf.node))
     passed = [norm(c.args[1]) for c in walk_local(cf.node) if isinstance(c, ast.Call) and norm(c.func) == "self._conflicts_good" and len(c.args) >= 2]
 
+    # locals that stand for the candidate: wanted = identifier.lower()
+    cand = {cg.params[2]}
+    folded_names = set()
+    grew = True
+    while grew:
+        grew = False
+        for a in ast.walk(cg.node):
+            if isinstance(a, ast.Assign) and len(a.targets) == 1 and isinstance(a.targets[0], ast.Name) and a.targets[0].id not in cand \
+                    and any(isinstance(x, ast.Name) and x.id in cand for x in ast.walk(a.value)):
+                cand.add(a.targets[0].id)
+                grew = True
+                v = a.value
+                if isinstance(v, ast.Call) and isinstance(v.func, ast.Attribute) and v.func.attr in ("lower", "casefold", "upper"):
+                    folded_names.add(a.targets[0].id)
+
     def folded(e):
         if isinstance(e, ast.Call) and isinstance(e.func, ast.Attribute) and e.func.attr in ("lower", "casefold", "upper"):
+            return True
+        if isinstance(e, ast.Name) and e.id in folded_names:
             return True
         if isinstance(e, ast.Name) and e.id == cg.params[2] and caller_folds and all("lower" in p for p in passed):
             return True  # the candidate is folded by the only caller
@@ -332,7 +411,7 @@ def check_c17(ctx, R):
 
     ncmp = 0
     for c in ast.walk(cg.node):
-        if isinstance(c, ast.Compare) and len(c.ops) == 1 and isinstance(c.ops[0], (ast.Eq, ast.NotEq)) and any(isinstance(x, ast.Name) and x.id == cg.params[2] for x in ast.walk(c)):
+        if isinstance(c, ast.Compare) and len(c.ops) == 1 and isinstance(c.ops[0], (ast.Eq, ast.NotEq)) and any(isinstance(x, ast.Name) and x.id in cand for x in ast.walk(c)):
             ncmp += 1
             l, r = c.left, c.comparators[0]
             unf = [norm(x) for x in (l, r) if not folded(x)]
